@@ -499,6 +499,17 @@ func (x *Decimal) Float(z *big.Float) *big.Float {
 // If x is too large to be represented by a float32 (|x| > math.MaxFloat32),
 // the result is (+Inf, Above) or (-Inf, Below), depending on the sign of x.
 func (x *Decimal) Float32() (float32, Accuracy) {
+	if x.form == finite && -80 < x.exp && x.exp < 80 {
+		// x is within (a superset of) the float32 range: convert exactly.
+		// Going through a big.Float rounded to 32 bits rounds twice and
+		// returns the second nearest float32 for about one input in 500.
+		r, _ := x.Rat(nil)
+		f, _ := r.Float32()
+		if math.IsInf(float64(f), 0) {
+			return f, makeAcc(f > 0)
+		}
+		return f, Accuracy(new(big.Rat).SetFloat64(float64(f)).Cmp(r))
+	}
 	z := x.Float(new(big.Float).SetPrec(32))
 	f, a := z.Float32()
 	// If big.Float -> float64 conversion is accurate, use Decimal->Float accuracy.
